@@ -611,7 +611,7 @@ func (sc *scenario) killedFromOutside() bool {
 	select {
 	case <-sc.collExited:
 		return sc.collWaitErr != nil && strings.Contains(sc.collWaitErr.Error(), "signal: killed")
-	default:
+	case <-time.After(time.Second): // the observers may see the end a moment before the child is reaped
 		return false
 	}
 }
